@@ -9,14 +9,18 @@
 From Coq Require Import List Arith Lia Bool PeanoNat NArith Sorting.Mergesort Orders.
 Import ListNotations.
 Require Import Eytz Eytz2 Eytz3 Codec ReadAt.
+Require Import YF.Generated.ConstsC05.
 Local Open Scope N_scope.
 
 Inductive outcome (A : Type) := Ok (a : A) | Err | OutOfFuel.
 Arguments Ok {A} a. Arguments Err {A}. Arguments OutOfFuel {A}.
 
 Inductive version := V1 | V2.
-Definition version_num (v : version) : N := match v with V1 => 1 | V2 => 2 end.   (* const Version *)
-Definition magic : list N := [98; 117; 99; 107; 101; 116; 116; 101].              (* "buckette" *)
+(* const Version and var _Magic of the two packages: taken from the source tree (ConstsC05.v is regenerated
+   from bucketteer/bucketteer.go and deprecated/bucketteer/bucketteer.go on every check) *)
+Definition version_num (v : version) : N := match v with V1 => go_version_legacy | V2 => go_version_current end.
+Definition magic (v : version) : list N := match v with V1 => go_magic_legacy | V2 => go_magic_current end.
+Definition magic_len : nat := 8.                                                    (* [8]byte *)
 Definition two16 : N := 65536.
 Definition two32 : N := 4294967296.
 Definition two63 : N := 9223372036854775808.
@@ -161,7 +165,7 @@ Definition enc_tab (tab : list (N * N)) : list N := flat_map enc_entry tab.
 
 (* createHeader *)
 Definition enc_header (ver : version) (hsz : N) (mb : list N) (tab : list (N * N)) : list N :=
-  le_enc 4 hsz ++ magic ++ le_enc 8 (version_num ver) ++ mb
+  le_enc 4 hsz ++ magic ver ++ le_enc 8 (version_num ver) ++ mb
   ++ le_enc 8 (N.of_nat (length tab) mod two64) ++ enc_tab tab.
 
 (* readHeader's table loop; entries are consed, so the LAST assignment to a prefix comes first *)
@@ -191,10 +195,10 @@ Definition open_ (ver : version) (R : N -> N -> option (list N)) : outcome reade
   match R 4 hs with
   | None => Err
   | Some buf =>
-  match take 8 buf with
+  match take magic_len buf with
   | None => Err
   | Some (m, b1) =>
-  if negb (list_eqb m magic) then Err else
+  if negb (list_eqb m (magic ver)) then Err else
   match take 8 b1 with
   | None => Err
   | Some (vb, b2) =>
